@@ -34,6 +34,11 @@ type pathAbort struct {
 
 func unsupported(msg string) pathAbort { return pathAbort{"unsupported", msg} }
 
+// linknames maps a bodiless function to the (package path, function) it is linked to.
+var linknames = map[string][2]string{
+	"mime/multipart.readMIMEHeader": {"net/textproto", "readMIMEHeader"},
+}
+
 // State of one path execution.
 type interpreter struct {
 	eng                *Engine
@@ -758,6 +763,14 @@ func callSSA(i *interpreter, caller *frame, callpos token.Pos, fn *ssa.Function,
 		if fn.Blocks == nil {
 			if ext := i.eng.external(fn); ext != nil {
 				return ext(fr, args)
+			}
+			// bodiless functions bound to another package's function with //go:linkname
+			if tgt, ok := linknames[fn.String()]; ok {
+				if p := fn.Prog.ImportedPackage(tgt[0]); p != nil {
+					if f := p.Func(tgt[1]); f != nil {
+						return callSSA(i, caller, callpos, f, args, nil)
+					}
+				}
 			}
 			chain := ""
 			for c, n := caller, 0; c != nil && n < 6; c, n = c.caller, n+1 {
